@@ -30,7 +30,9 @@ def remote_recs(rng: random.Random) -> List[dict]:
 
 def gen_c16(rng: random.Random, sid: str, thorough: bool) -> dict:
     sc = rf.gen_resp(rng, sid, rng.choice(['c11', 'c12', 'c03']), thorough)
-    steps = sc['steps']
+    # (no raising listeners here: which of two listeners is called first depends on the iteration order of a set of objects,
+    # which differs between the two runs that are compared)
+    steps = [st for st in sc['steps'] if not (st['op'] == 'ladd' and st.get('raise_every'))]
     out: List[dict] = []
     placed = False
     for st in steps:
